@@ -219,11 +219,13 @@ void h_rgm_numeric_anylen(void) {
   carquet_status_t rc = carquet_reader_row_group_matches(w.reader, w.rg, w.col, (carquet_compare_op_t)op,
                                                          value, (int32_t)sizeof(val_t), &mm);
   if (w.st != NULL && rc == CARQUET_OK) CQV_CANARY("anylen: valid indices");
+  if (!mm) CQV_CANARY("anylen: pruning is possible");
   CQV_CANARY("rgm numeric anylen end");
 }
 #endif
 
-#if CQV_T == T_BA || CQV_T == T_FLBA
+#if CQV_T == T_BA || CQV_T == T_FLBA || CQV_T == T_BOOL
+/* specification order (BOOLEAN: one byte, false < true, i.e. the same order on 1-byte strings) */
 /* specification order: unsigned lexicographic, proper prefix first */
 static int lex_cmp(const uint8_t *a, int32_t al, const uint8_t *b, int32_t bl) {
   for (int32_t i = 0; i < CQV_MAXLEN; i++) {
@@ -295,6 +297,49 @@ void h_rgm_bytes_safety(void) {
   CQV_CANARY("rgm bytes safety end");
 }
 #endif
+
+/* carquet_reader_column_statistics: each of the four (pointer, length) pairs of the thrift Statistics struct is
+ * reported from its own field: new pair (min_value, max_value) when both are present, else the deprecated pair
+ * (min, max) when both are present, else no min/max; counts pass through.  Four distinct objects, four
+ * independent lengths. */
+void h_column_statistics(void) {
+  int32_t l1 = nondet_i32(), l2 = nondet_i32(), l3 = nondet_i32(), l4 = nondet_i32();
+  unsigned present = nondet_unsigned();
+  struct rg_world w = mk_world(l1, l2, l3, l4, present);
+  carquet_column_statistics_t out;
+  carquet_status_t rc = carquet_reader_column_statistics(w.reader, w.rg, w.col, &out);
+  if (w.st == NULL) {
+    __CPROVER_assert(rc != CARQUET_OK, "out-of-range indices are an error");
+    CQV_CANARY("colstats: out of range");
+    return;
+  }
+  __CPROVER_assert(rc == CARQUET_OK, "valid indices succeed");
+  parquet_statistics_t *st = w.st;
+  _Bool have = w.chunk->has_metadata && w.chunk->metadata.has_statistics;
+  _Bool new_pair = PRESENT(st->min_value, st->min_value_len) && PRESENT(st->max_value, st->max_value_len);
+  _Bool old_pair = PRESENT(st->min_deprecated, st->min_deprecated_len) && PRESENT(st->max_deprecated, st->max_deprecated_len);
+  if (!have || (!new_pair && !old_pair)) {
+    __CPROVER_assert(!out.has_min_max, "no complete pair: no min/max reported");
+    CQV_CANARY("colstats: none");
+  } else if (new_pair) {
+    __CPROVER_assert(out.has_min_max, "new pair reported");
+    __CPROVER_assert(out.min_value == st->min_value && out.min_value_size == st->min_value_len, "min comes from field 6 (min_value) with its own length");
+    __CPROVER_assert(out.max_value == st->max_value && out.max_value_size == st->max_value_len, "max comes from field 5 (max_value) with its own length");
+    CQV_CANARY("colstats: new pair");
+  } else {
+    __CPROVER_assert(out.has_min_max, "deprecated pair reported");
+    __CPROVER_assert(out.min_value == st->min_deprecated && out.min_value_size == st->min_deprecated_len, "min comes from field 2 (min) with its own length");
+    __CPROVER_assert(out.max_value == st->max_deprecated && out.max_value_size == st->max_deprecated_len, "max comes from field 1 (max) with its own length");
+    CQV_CANARY("colstats: deprecated pair");
+  }
+  if (have) {
+    parquet_statistics_t *ps = st;
+    __CPROVER_assert((out.has_null_count != 0) == (ps->has_null_count != 0) && (!ps->has_null_count || out.null_count == ps->null_count), "null_count passes through");
+    __CPROVER_assert((out.has_distinct_count != 0) == (ps->has_distinct_count != 0) && (!ps->has_distinct_count || out.distinct_count == ps->distinct_count), "distinct_count passes through");
+  }
+  if (w.chunk->has_metadata) __CPROVER_assert(out.num_values == w.chunk->metadata.num_values, "num_values passes through");
+  CQV_CANARY("colstats end");
+}
 
 /* filter_row_groups: contract in contracts/stats_reader.ovl, row_group_matches replaced by its contract */
 int32_t carquet_reader_num_row_groups(const carquet_reader_t *reader) { return reader->metadata.num_row_groups; }
